@@ -8,6 +8,7 @@ verus! {
 //@ include prelude/core.rs
 //@ include prelude/std_specs.rs
 //@ include prelude/panic.rs
+//@ include prelude/gcdspec.rs
 //@ include prelude/val32.rs
 //@ extract src/bigint.rs :: enum Sign attrs=1
 #[derive(/*+*/Structural, /*-*/PartialEq, PartialOrd, Eq, Ord, Copy, Clone, Debug, Hash)]
@@ -36,13 +37,7 @@ impl BigUint {
     exec const ZERO: Self /*+*/ensures Self::ZERO.data@.len() == 0 /*-*/{ BigUint { data: Vec::new() } }
 //@ end
 //@ stub u_core/is_zero
-    //@ assume BigUint::modinv : extended-Euclid loop over BigUint %, div_rem, *, - (src/biguint.rs); unit pending. `None <=> gcd != 1` needs gcd theory and is not stated here
-    #[verifier::external_body]
-    pub fn modinv(&self, modulus: &Self) -> (r: Option<Self>)
-        requires self.wf(), modulus.wf(), !mp() ==> modulus.v() != 0
-        ensures mp() ==> modulus.v() != 0,
-            r is Some ==> r.unwrap().wf() && r.unwrap().v() < modulus.v() && is_modinv(self.v() as int, modulus.v() as int, r.unwrap().v() as int)
-    { unimplemented!() }
+//@ stub u_modinv/modinv
 }
 impl SubSpecImpl<BigUint> for &BigUint {
     open spec fn obeys_sub_spec() -> bool { false }
@@ -102,10 +97,15 @@ impl BigInt {
             res is Some ==> res.unwrap().wfi() && is_modinv(self.iv(), modulus.iv(), res.unwrap().iv())
                 && (modulus.iv() > 0 ==> 0 <= res.unwrap().iv() < modulus.iv())
                 && (modulus.iv() < 0 ==> modulus.iv() < res.unwrap().iv() <= 0),
+            res is Some ==> is_gcd(self.mag().v(), modulus.mag().v(), 1),
+            res is None ==> exists|g: nat| g != 1 && is_gcd(self.mag().v(), modulus.mag().v(), g),
 //+}
     {
 //+{
-        proof { lemma_sgn_mul(self.sign, self.data.v()); lemma_sgn_mul(modulus.sign, modulus.data.v()); }
+        proof {
+            lemma_sgn_mul(self.sign, self.data.v()); lemma_sgn_mul(modulus.sign, modulus.data.v());
+            assert(self.mag().v() == self.data.v() && modulus.mag().v() == modulus.data.v());
+        }
 //+}
         let result = self.data.modinv(&modulus.data)?;
 //+{
